@@ -14,7 +14,7 @@ POL = N.POLICY_VARIANTS
 INC_FN = N.ENTRY + '::increment_frequency'
 IS_EXPIRED = N.ENTRY + '::is_expired'
 
-VOCAB = ['hit', 'miss', 'S+', 'S-', 'S0', 'Qrem', 'Q>', 'Q<', 'inc', 'cmp:overflow', 'cmp:oversize', 'cmp:fit']
+VOCAB = ['hit', 'miss', 'S+', 'S-', 'Srepl', 'S0', 'Qrem', 'Q>', 'Q<', 'inc', 'cmp:overflow', 'cmp:oversize', 'cmp:fit', 'Q-front', 'Q-back']
 IX = {k: i for i, k in enumerate(VOCAB)}
 
 
@@ -111,8 +111,15 @@ class Core:
             return ks
         return extra
 
-    def weigher(self, fields, oracles=None):
-        return Weigher(self.prog, fields, VOCAB, oracles=oracles, classify=classify_ext, extra=self.extra_kinds())
+    def weigher(self, fields, oracles=None, root=None):
+        """root: the operation whose own key (first `&str` parameter) distinguishes Srepl from S-"""
+        own = None
+        if root is not None and root.kind in ('fn', 'assoc_fn'):
+            for i in range(1, root.arg_count + 1):
+                if root.local_ty(i) == '&str':
+                    own = (root.id, i)
+                    break
+        return Weigher(self.prog, fields, VOCAB, oracles=oracles, classify=classify_ext, extra=self.extra_kinds(), own_key=own)
 
     # ---- oracle sites of a lookup ---------------------------------------------------------------
     def lookup_sites(self, get):
@@ -175,7 +182,7 @@ def lookup_scenarios(ctx):
                             left, sym, right = normal_form(op, ra, rb, ['AGE_SECS', 'TTL'])
                             val = e if sym in ('>=', '>') else 1 - e
                             orc[(xid, bi, si)] = val
-                w = C.weigher(a, orc)
+                w = C.weigher(a, orc, root=get)
                 sp = w.spec(get)
                 tot = sp.path_totals()
                 outs = set()
@@ -234,13 +241,13 @@ def check_lookup_expiry(run, ctx):
                 if ret != 0:
                     run.bad('C06-E1', key + '/expired-served', 'with the expiry test true a lookup path still returns a value (%s)' % where, site=r['fn'].name,
                             oracle='every value-returning path is on the not-expired edge of the expiry test')
-                elif d['S-'] < 1 or d['Qrem'] < 1:
-                    run.bad('C06-P1', key + '/purge', 'the expired branch leaves the entry in the %s (%s): it keeps occupying capacity' %
-                            ('store' if d['S-'] < 1 else 'order queue', where), site=r['fn'].name, oracle='expired => store removal and queue removal of the key on every path')
-                elif d['Q>'] or d['inc'] or d['S+']:
+                elif d['Srepl'] < 1 or d['Qrem'] < 1:
+                    run.bad('C06-P1', key + '/purge', 'the expired branch leaves the requested key in the %s (%s): it keeps occupying capacity' %
+                            ('store' if d['Srepl'] < 1 else 'order queue', where), site=r['fn'].name, oracle='expired => store removal and queue removal of the requested key on every path')
+                elif d['Q>'] or d['inc'] or d['S+'] or d['S-']:
                     run.bad('C06-P1', key + '/purge-extra', 'the expired branch also touches the queue/frequency (%s)' % where, site=r['fn'].name)
                 else:
-                    run.ok('C06-P1', '%s/%s' % (key, describe(r['fields'])), 'expired: returns None, S-=%d Qrem=%d' % (d['S-'], d['Qrem']))
+                    run.ok('C06-P1', '%s/%s' % (key, describe(r['fields'])), 'expired: returns None, own key purged (store %d, queue %d)' % (d['Srepl'], d['Qrem']))
         elif r['scenario'] == 'fresh':
             for (ret, v) in r['outcomes']:
                 n += 1
@@ -248,7 +255,7 @@ def check_lookup_expiry(run, ctx):
                 if ret != 1:
                     run.bad('C06-E1', key + '/fresh-not-served', 'an entry that is present and not expired is not returned on some path (%s)' % where, site=r['fn'].name,
                             oracle='found and not expired => value returned')
-                elif d['S-'] or d['S0']:
+                elif d['S-'] or d['S0'] or d['Srepl']:
                     run.bad('C06-E1', key + '/fresh-removed', 'a hit removes store entries (%s)' % where, site=r['fn'].name)
                 else:
                     run.ok('C06-E1', '%s/%s/fresh' % (key, describe(r['fields'])), 'fresh: value returned, nothing removed')
@@ -256,7 +263,7 @@ def check_lookup_expiry(run, ctx):
             for (ret, v) in r['outcomes']:
                 n += 1
                 d = _vec(v)
-                if ret != 0 or d['S-'] or d['S0'] or d['Qrem'] or d['Q>'] or d['S+']:
+                if ret != 0 or d['S-'] or d['S0'] or d['Srepl'] or d['Qrem'] or d['Q>'] or d['S+']:
                     run.bad('C06-E1', key + '/absent', 'a lookup of an absent key returns a value or modifies store/queue (%s): %s' % (where, d), site=r['fn'].name)
                 else:
                     run.ok('C06-E1', '%s/%s/absent' % (key, describe(r['fields'])), 'absent: None, no effect')
@@ -323,7 +330,7 @@ def check_lookup_removes_nothing_unbounded(run, ctx):
             n += 1
             d = _vec(v)
             key = '%s/%s/get/%s' % (r['flavour'], POL[a['policy']], r['scenario'])
-            if d['S-'] or d['S0']:
+            if d['S-'] or d['S0'] or d['Srepl']:
                 run.bad('C03-E1', key, 'a lookup removes store entries although no limit, memory bound or ttl is configured (%s)' % r['fn'].name, site=r['fn'].name,
                         oracle='unbounded configuration: no store removal reachable')
             else:
@@ -351,7 +358,7 @@ def store_rows(ctx):
                 for b, t in x.calls():
                     pass
             for a in all_assumptions():
-                w = C.weigher(a, {})
+                w = C.weigher(a, {}, root=fn)
                 sp = w.spec(fn)
                 tot = sp.path_totals()
                 outs = set()
@@ -372,7 +379,7 @@ def check_store_unbounded(run, ctx):
         if a['limit'] or a['max_memory'] or a['ttl']:
             continue
         key = '%s/%s/%s' % (r['flavour'], POL[a['policy']], r['method'])
-        bad = [v for v in r['outcomes'] if _vec(v)['S-'] or _vec(v)['S0']]
+        bad = [v for v in r['outcomes'] if _vec(v)['S-'] or _vec(v)['S0'] or (_vec(v)['Srepl'] and not _vec(v)['S+'])]
         n += 1
         if bad:
             run.bad('C03-E1', key, '%s removes store entries on some path although no limit, memory bound or ttl is configured' % r['fn'].name, site=r['fn'].name,
@@ -412,7 +419,7 @@ def check_overflow_test_on_every_path(run, ctx):
         for v in r['outcomes']:
             d = _vec(v)
             n += 1
-            if d['S+'] >= 1 and d['cmp:overflow'] < 1 and not (d['cmp:oversize'] >= 1 and d['S-'] >= 1):
+            if d['S+'] >= 1 and d['cmp:overflow'] < 1 and not (d['cmp:oversize'] >= 1 and d['Srepl'] >= 1):
                 run.bad('C04-E1', key + '/limit-test-skipped', '%s stores an entry on a path that never compares the size with the limit (%s)' % (r['fn'].name, describe(a)),
                         site=r['fn'].name, oracle='limit=Some: overflow test on every storing path')
             else:
@@ -628,19 +635,19 @@ def check_memory_forms(run, ctx):
                 orc = {(xid, bi, si): (val if SYM[op] in ('>', '>=') and ra == 'NEW_SIZE' or SYM[op] in ('<', '<=') and rb == 'NEW_SIZE' else 1 - val)}
                 for p in range(6):
                     aa = {'policy': p, 'limit': 0, 'max_memory': 1, 'ttl': 0}
-                    w = C.weigher(aa, orc)
+                    w = C.weigher(aa, orc, root=fn)
                     sp = w.spec(fn)
                     for n_, vs in sp.path_totals().items():
                         for v in vs:
                             d = _vec(v)
                             if val == 1:
-                                net = d['S+'] - d['S-']
-                                if d['cmp:fit'] or net != 0 or d['S0'] or (d['Q>'] >= 1) != (d['Qrem'] >= 1):
+                                # no other entry is displaced; if the value was stored first it is taken out again
+                                if d['cmp:fit'] or d['S-'] or d['S0'] or (d['S+'] >= 1 and d['Srepl'] < 1) or (d['Q>'] >= 1 and d['Qrem'] < 1):
                                     run.bad('C05-K1', '%s/%s/oversize-effects' % (key, POL[p]), 'a value larger than max_memory is stored or displaces other entries '
-                                            '(S+=%d S-=%d Q>=%d Qrem=%d fit-tests=%d) in %s' % (d['S+'], d['S-'], d['Q>'], d['Qrem'], d['cmp:fit'], fn.name), site=fn.name,
+                                            '(stored %d, own key removed %d, other entries removed %d, queue +%d -%d, fit tests %d) in %s' % (d['S+'], d['Srepl'], d['S-'], d['Q>'], d['Qrem'], d['cmp:fit'], fn.name), site=fn.name,
                                             oracle='oversize => no net entry, no other eviction')
                                 else:
-                                    run.ok('C05-K1', '%s/%s/oversize' % (key, POL[p]), 'no net entry (S+=%d S-=%d), eviction loop not entered' % (d['S+'], d['S-']))
+                                    run.ok('C05-K1', '%s/%s/oversize' % (key, POL[p]), 'no net entry (stored %d, taken out again %d), no other entry removed, eviction loop not entered' % (d['S+'], d['Srepl']))
                             else:
                                 if d['S+'] >= 1 and d['cmp:fit'] < 1:
                                     run.bad('C05-K2', '%s/%s/fit-test-skipped' % (key, POL[p]), 'a value that is not oversize is stored on a path without the fit test (%s)' % fn.name, site=fn.name)
@@ -690,7 +697,7 @@ def check_memory_forms(run, ctx):
                     orc[(oxid, obi, osi)] = 0 if (SYM[oop] in ('>', '>=')) == (ora == 'NEW_SIZE') else 1
                 for p in range(6):
                     aa = {'policy': p, 'limit': 0, 'max_memory': 1, 'ttl': 0}
-                    w = C.weigher(aa, orc)
+                    w = C.weigher(aa, orc, root=fn)
                     sp = w.spec(fn)
                     for n_, vs in sp.path_totals().items():
                         for v in vs:
@@ -796,7 +803,7 @@ def check_memory_loop(run, ctx):
             orc = {(xid, bi, si): fits_raw(0)}
             for s_ in member + selected:
                 orc[s_] = 1
-            w = C.weigher(a, orc)
+            w = C.weigher(a, orc, root=fn)
             sp = w.spec(body)
             seg = segment_totals(sp, {bi}, {bi})
             key = '%s/%s' % (flav, POL[p])
